@@ -14,6 +14,7 @@ import concurrent.futures
 import json
 import os
 import random
+import re
 import time
 
 import vlib
@@ -242,6 +243,45 @@ def final_commit_cause(head, mine):
     return "marks_not_above_stale_out_of_range_commit"
 
 
+def refresh0_family(ctx, trace):
+    """configuration family Metadata.RefreshFrequency=0 in a process of its own (the code may crash the process from a
+    goroutine without recover). The harness writes its events unbuffered; when the process died, the `panic` event is
+    added here from the process output. The scenario is appended to the merged trace as one more execution."""
+    rc, out, outdir = ctx.go_test("^TestVerifGroupRefresh0$", timeout=180, name="r0", only=ONLY)
+    if "[build failed]" in out or "[setup failed]" in out:
+        ctx.need_go(rc, out, "refresh0 family")
+    p = os.path.join(outdir, "trace_r0.ndjson")
+    evs = vlib.read_ndjson(p) if os.path.exists(p) else []
+    if not evs or evs[0].get("ev") != "reset":
+        raise vlib.Inconclusive("refresh0 family: the scenario did not start (rc=%d)\n%s" % (rc, "\n".join(out.splitlines()[-20:])))
+    crashed = None
+    if rc != 0:
+        m = re.search(r"^(panic: .*|fatal error: .*)$", out, re.M)
+        if not m or evs[-1].get("ev") == "done":
+            raise vlib.Inconclusive("refresh0 family: harness failed without a crash of the code under test (rc=%d)\n%s"
+                                    % (rc, "\n".join(out.splitlines()[-20:])))
+        fr = re.search(r"^github\.com/Shopify/sarama\.(\S+?)\(", out[m.end():], re.M)
+        crashed = {"what": m.group(1)[:160], "site": fr.group(1) if fr else "?"}
+        evs.append({"t": 1, "i": evs[-1]["i"] + 1, "ev": "panic", "c": "c1", "what": crashed["what"], "site": crashed["site"]})
+    with open(trace) as f:
+        lines = [l for l in f if l.strip()]
+    end = json.loads(lines[-1])
+    if end.get("ev") != "end":
+        raise vlib.Inconclusive("merged trace has no end event")
+    t = end["t"]
+    with open(trace, "w") as f:
+        f.writelines(lines[:-1])
+        for e in evs:
+            e = dict(e)
+            e["t"] = t
+            head = {"t": t, "i": e.pop("i"), "ev": e.pop("ev")}
+            e.pop("t")
+            head.update(e)
+            f.write(json.dumps(head, separators=(",", ":")) + "\n")
+        f.write('{"t":%d,"i":1,"ev":"end"}\n' % (t + 1))
+    return crashed
+
+
 def run(ctx):
     thorough = ctx.tier == "thorough"
     with concurrent.futures.ThreadPoolExecutor(max_workers=1) as ex:
@@ -269,6 +309,9 @@ def run(ctx):
         if sum(executed.values()) != ncases:
             raise vlib.Inconclusive("harness executed %d of %d scenarios" % (sum(executed.values()), ncases))
         nevents = sum(s.get("events", 0) for s in sums)
+        r0 = refresh0_family(ctx, trace)
+        ncases += 1
+        executed["refresh0"] = 1
         rs = ctx.tlc_trace("GroupTrace", "GroupTrace.cfg", trace, shards=10 if thorough else 6, timeout=1500)
         t3 = time.time()
         mcs, bgs = mcf.result()
@@ -311,7 +354,7 @@ def run(ctx):
                 "cause": cause,
                 "scenario": head.get("id"), "family": head.get("fam"), "members": head.get("members"), "auto": head.get("auto"),
                 "strategy": head.get("strategy"), "initial": head.get("initial"),
-                "event": e.get("ev"), "client": c, "err": e.get("err"), "what": e.get("what"),
+                "event": e.get("ev"), "client": c, "err": e.get("err"), "what": e.get("what"), "site": e.get("site"),
                 "last_answer_errors": [x.get("err") for x in mine if x.get("ev") in ("join_resp", "sync_resp", "hb", "commit", "leave") and x.get("err") != "ok"][-3:],
                 "history": [{k: x[k] for k in x if k != "t"} for x in before][-14:],
             }
